@@ -389,7 +389,7 @@ func (ix *PkgIndex) freshLocal(f *FuncInfo, e ast.Expr) bool {
 		return false
 	}
 	// must not be a parameter/receiver/result
-	if obj.Pos() < outer.Decl.Body.Pos() || obj.Pos() > outer.Decl.Body.End() {
+	if !definedIn(outer.Info(), outer.Decl.Body, obj) {
 		return false
 	}
 	fresh := false
